@@ -67,10 +67,10 @@ KNOWN_DEFECT_moveTo_leaves_stale_locator_entry = True
 #  pool_assigned_by_attribute_not_in_collection: r.excore.sfp = SpentFuelPool('sfp') -> 'sfp' not in r.excore
 #    (ExcoreCollection.__setattr__ tests `type(value) is ExcoreStructure`); with trackAssems on
 #    core.removeAssembly(a) then finds no pool: a is dropped but stays in assembliesByName / blocksByName.
-KNOWN_DEFECT_add_foreign_locator_bypasses_occupancy = True
-KNOWN_DEFECT_remove_of_non_member_corrupts_location_table = True
-KNOWN_DEFECT_swap_with_itself_loses_stationary_block = True
-KNOWN_DEFECT_pool_assigned_by_attribute_not_in_collection = True
+KNOWN_DEFECT_add_foreign_locator_bypasses_occupancy = False  # repaired in /repo (fix: 9b746ec)
+KNOWN_DEFECT_remove_of_non_member_corrupts_location_table = False  # repaired in /repo (fix: 8703606)
+KNOWN_DEFECT_swap_with_itself_loses_stationary_block = False  # repaired in /repo (fix: 4ab6070)
+KNOWN_DEFECT_pool_assigned_by_attribute_not_in_collection = False  # repaired in /repo (fix: 6067ff3)
 
 CELLS = [(0, 0), (1, 0), (0, 1), (2, -1)]
 TYPES = ("grid plate", "fuel", "plenum")
